@@ -3,7 +3,7 @@
    over every initial store [l] and over every history [ops] of the operations of Model.op
    (view reads and writes interleaved with T/P/phase/phases setters, link_with, unlink, copy_like,
    property-package reset and the reset_chemicals round trip).  [final] is the heap after the history. *)
-From V Require Import Common.NumFacts C11.Model C11.Proofs C11.ProofsDeep.
+From V Require Import Common.NumFacts C11.Model C11.Proofs C11.ProofsDeep C11.ProofsCopy.
 
 (* the machine that is run against the implementation: the heap plus the state kept outside the indexers
    (Stream._flow_cache, the factor caches of the units objects, the per-stream property memo) *)
@@ -374,6 +374,115 @@ Proof.
 Qed.
 Print Assumptions C11_assign_mass_reads_back.
 
+(* ---------- second deepening round: a view written with (a row of) a view, at heap level ---------- *)
+(* ms.ivol[p] = ms.ivol[q] after any history, p and q two rows of the MultiStream with their own molar dicts: the
+   volumetric view of phase p then reads EXACTLY (==, no tolerance: the memo entries the write left are the ones the read
+   uses) what the volumetric view of phase q read before; no other molar dict, no ThermalCondition, phase box, row
+   array or stream changes *)
+Theorem C11_copy_row_vol_reads_back : forall Vf MWf pkgs utab l ops, (forall g p T P, ~ Vf g p T P == 0) ->
+  let h := final Vf MWf pkgs utab l ops in
+  forall i s r1 r2 d1 d2 src1 src2, nth_error (streams h) i = Some s -> multi s = true ->
+  nth_error (srcs h s) r1 = Some (d1, src1) -> nth_error (srcs h s) r2 = Some (d2, src2) ->
+  d1 <> d2 -> (d1 < length (rows h))%nat ->
+  let h' := fst (copy_row_view Vf MWf pkgs h s VVol r1 r2) in
+  snd (copy_row_view Vf MWf pkgs h s VVol r1 r2) = XNone /\
+  (forall j, nthq (nth r1 (snd (read_vol Vf pkgs h' s)) []) j == nthq (nth r2 (snd (read_vol Vf pkgs h s)) []) j) /\
+  (forall d, d <> d1 -> getrow h' d = getrow h d) /\
+  tps h' = tps h /\ boxes h' = boxes h /\ arrs h' = arrs h /\ streams h' = streams h.
+Proof.
+  intros Vf MWf pkgs utab l ops VN h i s r1 r2 d1 d2 src1 src2 Hs M H1 H2 ND D.
+  exact (copy_row_vol_reads_back Vf MWf pkgs VN h i s r1 r2 d1 d2 src1 src2 (inv_final Vf MWf pkgs utab l ops) Hs M H1 H2 ND D).
+Qed.
+Print Assumptions C11_copy_row_vol_reads_back.
+
+(* ms.imass[p] = ms.imass[q]: the molar dict of p then holds the molar amounts of q, the mass view of p reads what the
+   mass view of q read, nothing else changes *)
+Theorem C11_copy_row_mass_reads_back : forall Vf MWf pkgs utab l ops, (forall g, ~ MWf g == 0) ->
+  let h := final Vf MWf pkgs utab l ops in
+  forall i s r1 r2 d1 d2 src1 src2, nth_error (streams h) i = Some s -> multi s = true ->
+  nth_error (srcs h s) r1 = Some (d1, src1) -> nth_error (srcs h s) r2 = Some (d2, src2) ->
+  d1 <> d2 -> (d1 < length (rows h))%nat -> length (getrow h d2) = length (mwvec MWf pkgs (pkg s)) ->
+  let h' := fst (copy_row_view Vf MWf pkgs h s VMass r1 r2) in
+  snd (copy_row_view Vf MWf pkgs h s VMass r1 r2) = XNone /\
+  (forall j, nthq (getrow h' d1) j == nthq (getrow h d2) j) /\
+  (forall j, nthq (nth r1 (snd (read_mass MWf pkgs h' s)) []) j == nthq (nth r2 (snd (read_mass MWf pkgs h s)) []) j) /\
+  (forall d, d <> d1 -> getrow h' d = getrow h d) /\
+  tps h' = tps h /\ boxes h' = boxes h /\ arrs h' = arrs h /\ streams h' = streams h.
+Proof.
+  intros Vf MWf pkgs utab l ops MW h i s r1 r2 d1 d2 src1 src2 Hs M H1 H2 ND D L2.
+  exact (copy_row_mass_reads_back Vf MWf pkgs MW h i s r1 r2 d1 d2 src1 src2 (inv_final Vf MWf pkgs utab l ops) Hs M H1 H2 ND D L2).
+Qed.
+Print Assumptions C11_copy_row_mass_reads_back.
+
+(* ms.imol[p] = ms.imol[q] (any heap): the molar dict of p holds the entries of q, nothing else changes, no view cache is touched *)
+Theorem C11_copy_row_mol_reads_back : forall Vf MWf pkgs h s r1 r2 d1 d2 src1 src2,
+  multi s = true -> nth_error (srcs h s) r1 = Some (d1, src1) -> nth_error (srcs h s) r2 = Some (d2, src2) ->
+  d1 <> d2 -> (d1 < length (rows h))%nat ->
+  let h' := fst (copy_row_view Vf MWf pkgs h s VMol r1 r2) in
+  snd (copy_row_view Vf MWf pkgs h s VMol r1 r2) = XNone /\
+  (forall j, nthq (getrow h' d1) j == nthq (getrow h d2) j) /\
+  (forall d, d <> d1 -> getrow h' d = getrow h d) /\
+  tps h' = tps h /\ boxes h' = boxes h /\ arrs h' = arrs h /\ streams h' = streams h /\ caches h' = caches h.
+Proof. exact copy_row_mol_reads_back. Qed.
+Print Assumptions C11_copy_row_mol_reads_back.
+
+(* s_i.vol = s_j.vol after any history, between single-phase streams of one package with their own molar dicts that do
+   not share both the view cache and the ThermalCondition object: the volumetric view of s_i then reads EXACTLY what the
+   volumetric view of s_j read (whatever the two phases, temperatures and pressures are); nothing else changes.
+   This replaces the entry-wise relation C11_view_copy_vol as the statement about the stream API. *)
+Theorem C11_assign_vol_reads_back : forall Vf MWf pkgs utab l ops, (forall g p T P, ~ Vf g p T P == 0) ->
+  let h := final Vf MWf pkgs utab l ops in
+  forall i j s o, nth_error (streams h) i = Some s -> nth_error (streams h) j = Some o ->
+  multi s = false -> multi o = false -> pkg s = pkg o -> (cch s <> cch o \/ tc s <> tc o) -> sdata s <> sdata o ->
+  (sdata s < length (rows h))%nat ->
+  let h' := fst (assign_view Vf MWf pkgs h s o VVol) in
+  snd (assign_view Vf MWf pkgs h s o VVol) = XNone /\
+  (forall k, nthq (nth O (snd (read_vol Vf pkgs h' s)) []) k == nthq (nth O (snd (read_vol Vf pkgs h o)) []) k) /\
+  (forall d, d <> sdata s -> getrow h' d = getrow h d) /\
+  tps h' = tps h /\ boxes h' = boxes h /\ arrs h' = arrs h /\ streams h' = streams h.
+Proof.
+  intros Vf MWf pkgs utab l ops VN h i j s o Hs Ho M MO PK NC ND D.
+  exact (assign_vol_reads_back Vf MWf pkgs VN h i j s o (inv_final Vf MWf pkgs utab l ops) Hs Ho M MO PK NC ND D).
+Qed.
+Print Assumptions C11_assign_vol_reads_back.
+
+(* copy_like from a single-phase stream of ANOTHER property package onto a single-phase stream (any heap): if every
+   chemical with a non-zero flow exists (by CAS number) in the receiver's package, the receiver's molar dict holds each
+   value at the position of ITS chemical in the receiver's package, the receiver takes the source's phase, T and P, and
+   nothing else changes (no view cache is touched: the cached views stay valid because they convert on every read, which
+   is what C11_mass_get / C11_vol_get state for the heap after ANY history, these copies included); if a chemical is
+   missing the call raises with the receiver emptied, phase, T and P untouched *)
+Theorem C11_copy_like_other_package : forall pkgs h i s o,
+  multi s = false -> multi o = false -> pkg s <> pkg o -> sdata s <> sdata o ->
+  (sdata s < length (rows h))%nat -> (pbox s < length (boxes h))%nat -> (tc s < length (tps h))%nat ->
+  let co := chems pkgs (pkg o) in
+  let cs := chems pkgs (pkg s) in
+  let h' := fst (copy_like pkgs h i s o false) in
+  (xmiss co cs (getrow h (sdata o)) = false ->
+     snd (copy_like pkgs h i s o false) = XNone /\
+     getrow h' (sdata s) = map Qred (remap co cs (getrow h (sdata o))) /\
+     (forall j k, index_of (cas (gid pkgs (pkg s) j)) (map cas co) = Some k -> (j < length cs)%nat ->
+        nthq (getrow h' (sdata s)) j == nthq (getrow h (sdata o)) k) /\
+     getbox h' (pbox s) = getbox h (pbox o) /\ gettp h' (tc s) = gettp h (tc o)) /\
+  (xmiss co cs (getrow h (sdata o)) = true ->
+     snd (copy_like pkgs h i s o false) = XErr EOther /\
+     (forall j, nthq (getrow h' (sdata s)) j == 0) /\ boxes h' = boxes h /\ tps h' = tps h) /\
+  (forall d, d <> sdata s -> getrow h' d = getrow h d) /\
+  arrs h' = arrs h /\ caches h' = caches h /\ streams h' = streams h.
+Proof. exact copy_like_x_single. Qed.
+Print Assumptions C11_copy_like_other_package.
+
+(* s.empty() (the first step of Stream.reset_flow and MultiStream.reset_flow): every molar dict of the stream holds zeros,
+   no other dict, array, cache or stream changes, and the three totals are zero *)
+Theorem C11_empty : forall Vf MWf pkgs h s, (forall d, In d (rowrefs h s) -> (d < length (rows h))%nat) ->
+  let h' := empty_all h s in
+  (forall d, In d (rowrefs h s) -> forall j, nthq (getrow h' d) j == 0) /\
+  (forall d, ~ In d (rowrefs h s) -> getrow h' d = getrow h d) /\
+  F_mol h' s == 0 /\ F_mass MWf pkgs h' s == 0 /\ F_vol Vf pkgs h' s == 0 /\
+  arrs h' = arrs h /\ caches h' = caches h /\ streams h' = streams h.
+Proof. intros Vf MWf pkgs h s R. exact (empty_spec Vf MWf pkgs h s R). Qed.
+Print Assumptions C11_empty.
+
 (* ---------- non-vacuity ---------- *)
 Definition exV : nat -> phase -> Q -> Q -> Q := fun g p T P => (1 # 2) + inject_Z (Z.of_nat g) + T / 1024.
 Definition exMW : nat -> Q := mwstub.
@@ -436,3 +545,44 @@ Proof.
   intros k v [E|[E|[]]]; inversion E; subst; vm_compute; lia.
 Qed.
 
+
+(* non-vacuity of the row-copy / view-copy theorems: after a history with volumetric reads at two temperatures, stream 1
+   (two phases) has two rows with different molar dicts, streams 0 and 2 are single-phase with their own dicts and caches *)
+Definition cOps : list op := [ORead 1 VVol; OSetT 1 384; ORead 1 VMass; ORead 0 VVol; OSetT 0 384; ORead 2 VVol].
+Example C11_copy_nonvacuous :
+  let h := final dV dMW pkgstub exU exL cOps in
+  exists s1 d1 d2 s1' s0 s2, nth_error (streams h) 1 = Some s1 /\ multi s1 = true /\
+    nth_error (srcs h s1) 0 = Some (d1, s1') /\ nth_error (srcs h s1) 1 = Some (d2, Fixed Pl) /\ d1 <> d2 /\
+    (d1 < length (rows h))%nat /\ length (getrow h d2) = length (mwvec dMW pkgstub (pkg s1)) /\
+    nth_error (streams h) 0 = Some s0 /\ nth_error (streams h) 2 = Some s2 /\ multi s0 = false /\ multi s2 = false /\
+    pkg s0 = pkg s2 /\ (cch s0 <> cch s2 \/ tc s0 <> tc s2) /\ sdata s0 <> sdata s2 /\ (sdata s0 < length (rows h))%nat.
+Proof.
+  cbv zeta. do 6 eexists. repeat (split; [vm_compute; reflexivity|]).
+  split; [vm_compute; discriminate|]. split; [vm_compute; lia|]. repeat (split; [vm_compute; reflexivity|]).
+  split; [left; vm_compute; discriminate|]. split; [vm_compute; discriminate|]. vm_compute; lia.
+Qed.
+
+(* the histories the theorems range over contain MultiStream.reset_flow, Stream.empty and copy_like across packages: this
+   one runs them inside the modelled domain (no XDomain, no index error), the MultiStream ends with three phases and
+   cached views, stream 3 (package 1) received the flows of stream 0 (package 0) at the positions of package 1 *)
+Definition xL : list init :=
+  [IS 0 Pl 320 65536 [2; (1 # 2); 1]; IM 0 [Pg; Pl] 320 65536 [[1; 2; 0]; [0; (1 # 2); 3]]; IS 0 Ps 256 65536 [1; 8; (1 # 2)];
+   IS 1 Pg 384 65536 [1; 0; 0; 4]].
+Definition xU : list (option (view * Q)) := [Some (VMol, 1); Some (VMass, 1); Some (VVol, 1); None].
+Definition xOps : list op :=
+  [ORead 1 VVol; OSub 1 0; ORead 4 VMass;
+   OResetFlowM 1 (Some 8) 2 None [(Ps, [(0%nat, 2); (1%nat, 1)]); (Pg, [(2%nat, 4)])];
+   ORead 1 VVol; OGetTotal 1 2; ORead 3 VMass; OCopyLike 3 0; ORead 3 VMass; ORead 3 VVol; OEmpty 2; OTotal 2 VVol;
+   OCopyLike 0 3; ORead 0 VVol].
+Example C11_new_ops_nonvacuous :
+  let h := final exV exMW pkgstub xU xL xOps in
+  existsb (fun x => match x with XDomain | XErr _ => true | _ => false end)
+          (snd (runS exV exMW pkgstub xU (buildS xL) xOps)) = false /\
+  exists s1 s3 v1 m3, nth_error (streams h) 1 = Some s1 /\ phs s1 = [Pg; Pl; Ps] /\
+    vol_find (tc s1) (c_vols (getcache h (cch s1))) = Some v1 /\
+    nth_error (streams h) 3 = Some s3 /\ pkg s3 = 1%nat /\ c_mass (getcache h (cch s3)) = Some m3 /\
+    getrow h (sdata s3) = [1; 2; 0; (1 # 2)].
+Proof.
+  cbv zeta. split; [vm_compute; reflexivity|].
+  do 4 eexists. repeat (split; [vm_compute; reflexivity|]). vm_compute. reflexivity.
+Qed.
